@@ -257,3 +257,45 @@ func VP_C03_positions() {
 		vpReach("C03/positions/value")
 	}
 }
+
+func init() {
+	vpHarnesses["VP_C03_extreme"] = VP_C03_extreme
+}
+
+// vpC03Extreme: a CONCRETE POOL of short formulas at the extremes: exponents
+// far beyond any floating-point range, pad lengths near the largest integer,
+// values that contain themselves (a local bound to `this`). Each must
+// terminate with a value or an error. The last three are the listed known
+// finding (the decimal library does not terminate in reasonable time on
+// rounding / remainder of numbers with an exponent below about -10^8); they are
+// kept at the end so that their indices stay stable.
+var vpC03Extreme = []string{
+	"exp(1e9)", "exp(-1e9)", "ln(1e-400)", "sqrt(1e400)", "log(1e6000)", "1e6000 % 7", "1e999999999 + 1", "1e999999999 % 7", "7 % 1e-99999", "toInt(1e999999)", "1e999999 & 1",
+	"round(1e99999999)", "toString(1e999999999)", "ln(1e999999999)", "sqrt(1e999999999)", "1e999999999 * 1e999999999", "1e999999999 / 3", "1e999999999 < 1e-999999999", "toInt(1e-99999999)",
+	"1e-99999999 & 1", "abs(-1e-999999999)", "max(1e999999999, 1e-999999999)", "1e-999999999 === 0", "-1e-999999999 < 0", "1e-400 * 1e-400 + 1",
+	"lpad('a', 'bc', 9000000000000000000)", "rpad('a', 'b', 9000000000000000000)", "lpad('a', 'b', 1099511627776)", "rpad('abc', 'xy', 4611686018427387904)", "left('abc', 9000000000000000000)", "mid('abc', 1, 9000000000000000000)",
+	"($a = this, toString($a))", "($a = this, '' + $a)", "($a = [this], len($a))", "($a = this, $b = [$a], join($b, ','))", "($a = this, lpad($a, 'x', 3))", "($a = this, $a == $a)", "($a = this, typeof $a.x)", "($a = this, $a.$a.$a === this)",
+	"($a = [1], $b = [$a, $a], toString($b))", "($a = this, startWith($a, 'map'))", "($a = this, includes([$a], 1))",
+	"floor(1e-99999999)", "round(1e-99999999)", "1e-99999999 % 7",
+}
+
+// C03/extreme: every formula of the pool terminates with a value or an error.
+func VP_C03_extreme() {
+	var f string
+	if only := vpParam("ONLY"); only >= 0 {
+		f = vpC03Extreme[only] // (debugging aid: one formula)
+	} else {
+		f = vpC03Extreme[vpChoice("f", len(vpC03Extreme))]
+	}
+	code, err := ParseSourceCode([]byte(f))
+	vpAssert("C03/extreme/parses", err == nil)
+	if err != nil {
+		return
+	}
+	r := NewRunner()
+	r.SetThis(map[string]interface{}{"x": 1})
+	v, rerr := r.Resolve(context.Background(), code.Expression)
+	vpObserve("extreme", f, rerr != nil)
+	vpAssert("C03/extreme/value-xor-error", rerr == nil || v == nil)
+	vpReach("C03/extreme/done")
+}
